@@ -84,7 +84,7 @@ def extra(chk: Check) -> None:
         sub = chk.sub()
         _ctor_copies(sub)
         chk.adopt(sub, lambda o: "ByteInterval" in o.construct or "ByteBlock" in o.construct, "R19.5")
-    if p in ("C03", "C04", "C05", "C12"):
+    if p in ("C03", "C04", "C05", "C12", "C10"):
         # an operator / method of an owning collection that hands out its backing store lets the
         # caller change the collection behind the hooks (ownership, UUID table, indexes)
         from .c16 import run as _c16
@@ -95,7 +95,7 @@ def extra(chk: Check) -> None:
             cache["C16"] = sub16
         for o in cache["C16"].obs:
             if o.construct.endswith(":returns-store"):
-                chk.ob({"C03": "R03.5", "C04": "R04.2", "C05": "R05.8", "C12": "R12.6"}[p], o.construct, o.ok, o.loc,
+                chk.ob({"C03": "R03.5", "C04": "R04.2", "C05": "R05.8", "C12": "R12.6", "C10": "R10.3"}[p], o.construct, o.ok, o.loc,
                        o.message, o.facts, o.undecided)
     if p == "C02":
         # the reader collects CFG edges through CFG.add: what the set keeps is what is loaded
@@ -197,3 +197,62 @@ def extra(chk: Check) -> None:
         # shared between the tables of different nodes through a result cache
         from .purity import no_result_caches
         no_result_caches(chk, "R04.7")
+    if p in ("C05", "C06", "C13"):
+        # a memoised function is looked up by equality of its arguments, and ranges are equal as
+        # sequences: range(0, 10, 3) == range(0, 12, 3).  A query normalised or answered through a
+        # cache keyed by a range gets the bounds of another query with the same members
+        import ast as _ast
+        from ..model import unparse as _unparse
+        for f in repo.all_functions():
+            decos = " ".join(_unparse(d) for d in f.node.decorator_list)
+            if "lru_cache" not in decos and "functools.cache" not in decos and not decos.startswith("cache"):
+                continue
+            anns = " ".join(_unparse(a.annotation) for a in _ast.walk(f.node.args)
+                            if isinstance(a, _ast.arg) and a.annotation is not None)
+            takes_range = "range" in anns or any(a.arg in ("addrs", "offsets", "desired_range") for a in f.node.args.args)
+            if takes_range:
+                chk.saw(f)
+                chk.ob({"C05": "R05.7", "C06": "R06.1", "C13": "R13.3"}[p], "%s:memoised-by-range" % f.qualname, False, f.loc(),
+                       "%s is memoised and takes a range: ranges with the same members compare equal whatever "
+                       "their stop, so one query is answered with the bounds of another" % f.qualname, 1)
+    # ---- round 9 ------------------------------------------------------------------------------
+    if p == "C01":
+        # what is saved is the forest: a node that sits in two collections is written twice and
+        # comes back under the wrong parent
+        from .ownership import ownership
+        for _prop, rule, construct, ok, loc, msg, facts in ownership(repo).obs:
+            if rule == "R03.3" and construct.rsplit(":", 1)[-1] in (
+                    "leave-previous-owner", "leave-before-relink", "member-guard", "store-discard", "store-add",
+                    "store-after-leaving", "set-backptr", "clear-backptr"):
+                chk.ob("R01.12", construct, ok, loc, msg, facts)
+    if p == "C03":
+        # a reader that cannot resolve a reference rejects the file: it does not make a node up
+        # (which would be registered without being attached)
+        chk.adopt_property("C09", "R03.8", lambda o: o.rule == "R09.1" and o.construct.endswith(":lookup"))
+    if p == "C04":
+        # ``x.sections -= y`` rebinds the attribute to what the operator returns
+        cache = repo.__dict__.setdefault("_prop_obs", {})
+        if "C16" in cache:
+            for o in cache["C16"].obs:
+                if o.construct.endswith(":returns-self"):
+                    chk.ob("R04.2", o.construct, o.ok, o.loc, o.message, o.facts, o.undecided)
+    if p == "C05":
+        # the lookups re-check every hit against the block's own address
+        chk.adopt_property("C19", "R05.4", lambda o: o.construct in ("ByteBlock.address:value", "ByteBlock.address:none"))
+    if p == "C07":
+        # "entries naming nodes of the given IR come back as those nodes": the UUID table the
+        # decoder looks them up in follows every attach and detach
+        from .ownership import ownership
+        for _prop, rule, construct, ok, loc, msg, facts in ownership(repo).obs:
+            if rule == "R03.3" and construct.rsplit(":", 1)[-1] in ("table-add", "table-remove", "table-add-target"):
+                chk.ob("R07.7", construct, ok, loc, msg, facts)
+    if p == "C12":
+        # the owner's notification hooks hand every event on to the lazy tree, whatever the element
+        chk.adopt_property("C05", "R12.6", lambda o: o.rule == "R05.2" and o.construct.endswith(":forwards"))
+    if p == "C17":
+        # "... and can be saved again": a table that was read keeps either its bytes or its value
+        chk.adopt_property("C14", "R17.6", lambda o: o.construct.startswith("_LazyDataContainer.get_data:"))
+    if p in ("C17", "C02"):
+        # a partially linked IR is not coherent / not what was saved: the deferred pass is total
+        chk.adopt_property("C09", "R17.5" if p == "C17" else "R02.3",
+                           lambda o: o.construct.endswith(":deferred-pass-unconditional"))
